@@ -459,7 +459,10 @@ class cleanup_functools_wrapper(object):
 
 def autoforwards_function(func, args, kwargs):
     with cleanup_functools_wrapper(func):
-        sig = _signatures.signature(func)
+        try:
+            sig = _signatures.signature(func)
+        except (ValueError, TypeError):
+            raise UnknownForwards
     if not any_params_star(sig):
         raise UnknownForwards
     func_ast = _util.get_ast(func)
